@@ -3,7 +3,7 @@ import io
 from vfam import *  # noqa
 
 THEOREMS = ["C02_sequence_offsets", "C02_sequence_fixed", "C02_container_offsets", "C02_uint", "C02_bool", "C02_length_within_bounds", "C02_constructed"]
-PARTIAL = ["C02_constructed covers every type built from uintN, boolean, Container, Union and Vector/List of non-basic elements at any nesting depth (element reads through getter-by-gindex, length/selector mix-in, offsets); packed basic vectors/lists, bit arrays and byte arrays (chunk slicing, delimiter bit) and trees reached by mutation rather than construction are not covered by that theorem and are tied by the correspondence (encode_bytes, serialize(stream) bytes+count, bytes()) on random / boundary / full values"]
+PARTIAL = ["C02_constructed is the full statement for every type, but for backings built by the constructor; backings reached by mutation (set / append / pop / field assignment) are covered by the theorem only where C04 shows the mutated tree is again a representation (composite-element lists), otherwise by the correspondence (encode_bytes, serialize(stream) bytes+count, bytes()) on random / boundary / full values and after mutation histories (C04 harness)"]
 COQ_IMPORTS = ["RM.Types", "RMR.RunV"]
 COQ_FN = "RunV.run_c02"
 COQ_CASE_TY = "(ty * val)"
